@@ -3,7 +3,7 @@ use crate::api::*;
 use crate::run::*;
 use crate::sched::Rng;
 
-pub const FAMILIES: &[&str] = &["ring", "churn", "streams", "disc", "wake", "fut", "mem", "view"];
+pub const FAMILIES: &[&str] = &["ring", "churn", "streams", "disc", "wake", "fut", "mem", "view", "scan"];
 
 fn pick<T: Clone>(r: &mut Rng, v: &[T]) -> T {
     v[r.below(v.len())].clone()
@@ -24,6 +24,7 @@ pub fn gen(family: &str, r: &mut Rng) -> Scenario {
         "wake" => wake(r),
         "fut" => fut(r),
         "mem" => mem(r),
+        "scan" => scan(r),
         _ => ring(r, false),
     }
 }
@@ -363,4 +364,41 @@ fn mem(r: &mut Rng) -> Scenario {
         main.push(Op::SendRetry(0, 3));
     }
     Scenario { cfg, main, epilogue: Epilogue::Probe, family: "mem".into() }
+}
+
+/// writers scanning the stream list of a full queue while streams are removed and added
+fn scan(r: &mut Rng) -> Scenario {
+    let cap = pick(r, &[1u64, 2]);
+    let cfg = QCfg { bcast: true, fut: false, cap, wait: WaitCfg::Busy, fspins: None };
+    let n = crate::monitors::valid_wrap(cap);
+    let mut main = Vec::new();
+    let extra = 2 + r.below(4);
+    // streams 1..extra on slots 2.. ; all start at 0
+    for _ in 0..extra {
+        main.push(Op::AddStream(1));
+    }
+    // fill the ring so that every further send has to scan
+    for _ in 0..n {
+        main.push(Op::TrySend(0));
+    }
+    // each extra stream is removed (or drained and removed) by its own thread
+    for i in 0..extra {
+        let ops = match r.below(3) {
+            0 => vec![Op::Drop(0)],
+            1 => vec![Op::TryRecv(0), Op::Drop(0)],
+            _ => vec![Op::AddStream(0), Op::Drop(0), Op::TryRecv(1), Op::Unsub(1)],
+        };
+        main.push(Op::Spawn(vec![2 + i], ops));
+    }
+    // the first stream keeps consuming a little
+    main.push(Op::Spawn(vec![1], vec![Op::TryRecv(0), Op::TryRecv(0), Op::TryRecv(0)]));
+    let two = r.chance(1, 2);
+    if two {
+        main.push(Op::Clone(0));
+        main.push(Op::Spawn(vec![2 + extra], vec![Op::SendRetry(0, 3), Op::SendRetry(0, 3), Op::Drop(0)]));
+    }
+    for _ in 0..4 {
+        main.push(Op::SendRetry(0, 3));
+    }
+    Scenario { cfg, main, epilogue: Epilogue::Probe, family: "scan".into() }
 }
